@@ -76,10 +76,117 @@ func funcHashes(repo string) {
 	must(enc.Encode(out))
 }
 
+// canonGuard: equivalent spellings of "this count is not zero" / "this is not nil" get one text, so that a harmless
+// rewrite of the condition does not change the regenerated table
+func canonGuard(e ast.Expr) string {
+	if p, ok := e.(*ast.ParenExpr); ok {
+		return canonGuard(p.X)
+	}
+	if b, ok := e.(*ast.BinaryExpr); ok {
+		isZero := func(x ast.Expr) bool { l, ok := x.(*ast.BasicLit); return ok && l.Value == "0" }
+		isNil := func(x ast.Expr) bool { id, ok := x.(*ast.Ident); return ok && id.Name == "nil" }
+		switch {
+		case isZero(b.Y) && (b.Op == token.NEQ || b.Op == token.GTR):
+			return types.ExprString(b.X) + " != 0"
+		case isZero(b.X) && (b.Op == token.NEQ || b.Op == token.LSS):
+			return types.ExprString(b.Y) + " != 0"
+		case isZero(b.Y) && b.Op == token.GEQ:
+			break
+		case isNil(b.Y) && b.Op == token.NEQ:
+			return types.ExprString(b.X) + " != nil"
+		case isNil(b.X) && b.Op == token.NEQ:
+			return types.ExprString(b.Y) + " != nil"
+		}
+		if l, ok := b.Y.(*ast.BasicLit); ok && l.Value == "1" && b.Op == token.GEQ {
+			return types.ExprString(b.X) + " != 0"
+		}
+	}
+	return types.ExprString(e)
+}
+
+// exitSites prints every os.Exit call of internal/cmd: function, nearest enclosing `if` condition, argument
+func exitSites(repo string) {
+	fset := token.NewFileSet()
+	type exitSite struct {
+		Fn    string `json:"fn"`
+		Guard string `json:"guard"`
+		Arg   string `json:"arg"`
+	}
+	exits := []exitSite{}
+	matches, err := filepath.Glob(filepath.Join(repo, "internal", "cmd", "*.go"))
+	must(err)
+	sort.Strings(matches)
+	// the historical order of the table: check.go, run.go, root.go first, anything else after
+	order := map[string]int{"check.go": 0, "run.go": 1, "root.go": 2}
+	sort.SliceStable(matches, func(i, j int) bool {
+		oi, ok1 := order[filepath.Base(matches[i])]
+		oj, ok2 := order[filepath.Base(matches[j])]
+		if !ok1 {
+			oi = 9
+		}
+		if !ok2 {
+			oj = 9
+		}
+		return oi < oj
+	})
+	for _, path := range matches {
+		if strings.HasSuffix(path, "_test.go") {
+			continue
+		}
+		f, err := parser.ParseFile(fset, path, nil, 0)
+		must(err)
+		for _, d := range f.Decls {
+			fd, ok := d.(*ast.FuncDecl)
+			if !ok || fd.Body == nil {
+				continue
+			}
+			var stack []ast.Node
+			ast.Inspect(fd.Body, func(n ast.Node) bool {
+				if n == nil {
+					stack = stack[:len(stack)-1]
+					return true
+				}
+				stack = append(stack, n)
+				call, ok := n.(*ast.CallExpr)
+				if !ok {
+					return true
+				}
+				sel, ok := call.Fun.(*ast.SelectorExpr)
+				if !ok || sel.Sel.Name != "Exit" {
+					return true
+				}
+				if id, ok := sel.X.(*ast.Ident); !ok || id.Name != "os" {
+					return true
+				}
+				guard := ""
+				for i := len(stack) - 1; i >= 0; i-- {
+					if ifs, ok := stack[i].(*ast.IfStmt); ok {
+						guard = canonGuard(ifs.Cond)
+						break
+					}
+				}
+				arg := ""
+				if len(call.Args) == 1 {
+					arg = types.ExprString(call.Args[0])
+				}
+				exits = append(exits, exitSite{fd.Name.Name, guard, arg})
+				return true
+			})
+		}
+	}
+	enc := json.NewEncoder(os.Stdout)
+	enc.SetEscapeHTML(false)
+	must(enc.Encode(exits))
+}
+
 func main() {
 	repo := os.Args[1]
 	if len(os.Args) > 2 && os.Args[2] == "--funcs" {
 		funcHashes(repo)
+		return
+	}
+	if len(os.Args) > 2 && os.Args[2] == "--exits" {
+		exitSites(repo)
 		return
 	}
 	fset := token.NewFileSet()
